@@ -74,9 +74,11 @@ Next ==
 Spec == Init /\ [][Next]_vars
 
 ---------------------------------------------------------------------------
-\* properties: no clause of the property fails (zero-duration blocking is the
-\* known finding F6 and is excluded by its signature)
-KnownF6 == {<<"BlockingEndMissed", "zero-duration">>, <<"BlockingEndBeforeBegin", "zero-duration">>}
+\* properties: no clause of the property fails (with the historic variant "F6" - blocking of zero
+\* length before its repair - the two clauses it breaks are excluded by their signature)
+KnownF6 == IF "F6" \in Variant
+           THEN {<<"BlockingEndMissed", "zero-duration">>, <<"BlockingEndBeforeBegin", "zero-duration">>}
+           ELSE {}
 Holds(p) == \A v \in o.viol : ClauseProperty(v[1]) = p => v \in KnownF6
 Inv_C15 == Holds("C15")
 Inv_C16 == Holds("C16")
